@@ -130,9 +130,59 @@ def entry(a, idx, env=None):
         return UNKNOWN
     if a.tags.get('const') == 'eye' and a.ndim == 2 and a.origin in ('eye', 'transpose', 'copy', 'astype'):
         return ('delta', idx[0], idx[1])
+    # ---- outer products and contractions over a concrete index
+    if 'outer' in a.tags and len(idx) == 2:
+        u, v = a.tags['outer']
+        if isinstance(u, Arr) and isinstance(v, Arr) and u.ndim == 1 and v.ndim == 1:
+            return prod_([entry(u, [idx[0]], env), entry(v, [idx[1]], env)])
+    if a.origin == 'tensordot' and 'factors' in a.tags and 'contract_axes' in a.tags:
+        x, y = a.tags['factors']
+        ax_x, ax_y = a.tags['contract_axes']
+        if isinstance(x, Arr) and isinstance(y, Arr) and len(ax_x) == 1:
+            n = x.shape[ax_x[0]]
+            if isinstance(n, int) or (hasattr(n, 'is_const') and n.is_const()):
+                n = int(n) if isinstance(n, int) else int(n.const())
+                rx = [k for k in range(x.ndim) if k not in ax_x]
+                ry = [k for k in range(y.ndim) if k not in ax_y]
+                if len(idx) == len(rx) + len(ry):
+                    terms = []
+                    for t in range(n):
+                        ix = [None] * x.ndim
+                        iy = [None] * y.ndim
+                        for pos, k in enumerate(rx):
+                            ix[k] = idx[pos]
+                        for pos, k in enumerate(ry):
+                            iy[k] = idx[len(rx) + pos]
+                        ix[ax_x[0]] = t
+                        iy[ax_y[0]] = t
+                        terms.append(prod_([entry(x, ix, env), entry(y, iy, env)]))
+                    return sum_(terms)
+            return UNKNOWN
     # ---- arrays assembled by stores
     alloc = root_stores(a)
     if alloc is not None and alloc.tags.get('alloc') in ('zeros', 'ones') and (alloc is a or alloc.buf is a.buf):
+        added = []
+        for st in reversed(alloc.tags.get('stores', [])):
+            if st.get('mode') == 'add':
+                e2, rel, ok = env, [], True
+                for ax, s_ in enumerate(st['sel']):
+                    c, r, e2 = covers(s_, idx[ax], alloc.shape[ax], e2)
+                    if c is None:
+                        return UNKNOWN
+                    if not c:
+                        ok = False
+                        break
+                    if s_[0] != 'int':
+                        rel.append(r)
+                if ok:
+                    added.append(entry(st['value'], rel, e2) if isinstance(st['value'], Arr) else ('num', st['value']))
+                continue
+            break
+        if added:
+            base = [s_ for s_ in alloc.tags.get('stores', []) if s_.get('mode') != 'add']
+            if base or alloc.tags.get('alloc') != 'zeros':
+                return UNKNOWN                     # accumulation on top of explicit stores: not needed so far
+            return sum_(added)
         for st in reversed(alloc.tags.get('stores', [])):
             e2, rel, ok = env, [], True
             for ax, s in enumerate(st['sel']):
@@ -203,6 +253,30 @@ def entry(a, idx, env=None):
     return UNKNOWN
 
 
+def prod_(fs):
+    if any(f is None for f in fs):
+        return UNKNOWN
+    if any(f == ('zero',) for f in fs):
+        return ('zero',)
+    flat = []
+    for f in fs:
+        flat.extend(f[1] if f[0] == 'prod' else [f])
+    return ('prod', tuple(sorted(flat, key=repr)))
+
+
+def sum_(ts):
+    if any(t is None for t in ts):
+        return UNKNOWN
+    flat = []
+    for t in ts:
+        if t == ('zero',):
+            continue
+        flat.extend(t[1] if t[0] == 'sum' else [t])
+    if not flat:
+        return ('zero',)
+    return ('sum', tuple(sorted(flat, key=repr)))
+
+
 def point(p, env):
     """(role of the data array, per-axis position) of an evaluation point, following selections back to an array that carries a role"""
     sels = []
@@ -242,6 +316,24 @@ def same_content(a, b):
         return abs(complex(a[1]) - complex(b[1])) < 1e-15
     if a[0] == 'zero':
         return True
+    if a[0] in ('sum', 'prod'):
+        if len(a[1]) != len(b[1]):
+            return False
+        rest = list(b[1])
+        unknown = False
+        for x in a[1]:
+            hit = None
+            for y in rest:
+                e = same_content(x, y)
+                if e:
+                    hit = y
+                    break
+                if e is None:
+                    unknown = True
+            if hit is None:
+                return None if unknown else False
+            rest.remove(hit)
+        return True
     if a[0] == 'basis':
         if a[1] != b[1]:
             return False
@@ -274,4 +366,8 @@ def show(c):
         return f'f{list(c[1])}({p[0]}[{pos}])'
     if c[0] == 'num':
         return str(c[1])
+    if c[0] == 'prod':
+        return ' * '.join(show(x) for x in c[1])
+    if c[0] == 'sum':
+        return ' + '.join(show(x) for x in c[1])
     return c[0]
